@@ -93,6 +93,13 @@ Fixpoint upd_nth {T} (n : nat) (f : T -> T) (l : list T) : list T :=
   | x :: r, S n' => x :: upd_nth n' f r
   end.
 
+(* update the first element that satisfies p *)
+Fixpoint upd_first {T} (p : T -> bool) (f : T -> T) (l : list T) : list T :=
+  match l with
+  | [] => []
+  | x :: r => if p x then f x :: r else x :: upd_first p f r
+  end.
+
 Definition nat_of (n : N) := N.to_nat n.
 
 Definition get_conn (w : world) (c : N) : option conn := nth_error (w_conns w) (nat_of c).
@@ -241,7 +248,7 @@ Definition link_send (w : world) (src dst : N) (m : wmsg) : world :=
   | None => syn_gone w m
   | Some l0 =>
       if cut_from l0 src then syn_gone w m
-      else set_links w (map (fun l => if on_link l src dst then set_sent l (l_sent l ++ [m]) else l) (w_links w))
+      else set_links w (upd_first (fun l => on_link l src dst) (fun l => set_sent l (l_sent l ++ [m])) (w_links w))
   end.
 
 (* send_loopback on host h *)
@@ -517,7 +524,8 @@ Definition to_host (w : world) (h : N) (m : wmsg) : bool :=
 
 Definition mature_link (w : world) (l : link) (ks : list nat) : link :=
   let '(m, keep) := split_sent 0 ks (l_sent l) in
-  set_rdys (set_sent l keep) (l_rdy_a l ++ filter (to_host w (l_a l)) m) (l_rdy_b l ++ filter (to_host w (l_b l)) m).
+  set_rdys (set_sent l keep) (l_rdy_a l ++ filter (to_host w (l_a l)) m)
+           (l_rdy_b l ++ filter (fun x => negb (to_host w (l_a l) x) && to_host w (l_b l) x) m).
 
 Definition do_mature (w : world) (a b : N) (ks : list nat) : world :=
   set_links w (map (fun l => if on_link l a b then mature_link w l ks else l) (w_links w)).
